@@ -102,6 +102,7 @@ def rule_g2(ctx, F):
          "ts_range_array_intersects(included_range_differences, included_range_difference_index, position.bytes, iterator_end_position(&old_iter).bytes)", False),
     ], accept_desc="the `case IteratorMatches` arm (skip both subtrees)",
         accept_edge=lambda bid, e: isinstance(e.lab, dict) and e.lab.get("name") == "IteratorMatches")
+    bind(fn, "comparison", "iterator_compare(&old_iter, &new_iter)")
     ids = fn.ids_named("comparison")
     ds = [strip(d) if d else d for i in ids for d in fn.defs(i)]
     ok = len(ds) == 2 and any(d and M(fn).match("iterator_compare(&old_iter, &new_iter)", d) for d in ds) and any(d and d.get("name") == "IteratorMayDiffer" for d in ds)
@@ -109,7 +110,7 @@ def rule_g2(ctx, F):
         ctx.ok("G2", "ts_subtree_get_changed_ranges:comparison-defs", "`comparison` is iterator_compare(&old_iter, &new_iter), only ever weakened to IteratorMayDiffer")
     else:
         ctx.bad("G2", "ts_subtree_get_changed_ranges:comparison-defs", "`comparison` must be defined by iterator_compare(&old_iter, &new_iter) and otherwise only be set to IteratorMayDiffer; definitions: %s" % [show(d) if d else "?" for d in ds])
-    starts = [pt for pt, e in fn.points() if e.get("k") == "decl" and e["name"] == "comparison"]
+    starts = [pt for pt, e in fn.points() if e.get("k") == "decl" and e["name"] == fn.cur("comparison")]
     ends = [pt for pt, n in find(fn, "position = next_position") if fn.blocks[pt[0]].elems[pt[1]]["e"] is n]
     ends = [pt for pt in ends if pt[0] != starts[0][0]] if starts else ends
     adds = [pt for pt, n in find(fn, "ts_range_array_add(&results, position, next_position)")]
